@@ -7,6 +7,6 @@ export GOFLAGS=-mod=mod GOPROXY=off GOSUMDB=off GOTOOLCHAIN=local GOWORK=off CGO
 PROP=${1:?property id}
 TIER=${2:-${VERIF_TIER:-quick}}
 if [ ! -x bin/kvcheck ] || [ -n "$(find kvcheck -name '*.go' -newer bin/kvcheck 2>/dev/null | head -1)" ]; then
-  ./setup.sh >/dev/null 2>&1 || { echo "VIOLATION property=$PROP replay=- undecided: analyzer does not build"; exit 1; }
+  KV_SKIP_UNIT=1 ./setup.sh >/dev/null 2>&1 || { echo "VIOLATION property=$PROP replay=- undecided: analyzer does not build"; exit 1; }
 fi
 exec ./bin/kvcheck -prop "$PROP" -tier "$TIER" -repo "${KV_REPO:-/repo}" -verif "$(pwd)"
